@@ -33,7 +33,8 @@ Proof.
   induction s as [|c s IH]; intros acc nm rest H; cbn [take_until_rbrace] in H; [discriminate|].
   destruct (N.eqb c ch_rbrace) eqn:E.
   - inversion H; subst. exists [c]. split; [reflexivity|]. intros t. cbn [app take_until_rbrace]. rewrite E. reflexivity.
-  - apply IH in H. destruct H as (u & -> & Hu). exists (c :: u). split; [reflexivity|]. intros t. cbn [app take_until_rbrace]. rewrite E. apply Hu.
+  - destruct (is_name_char c) eqn:En; [|discriminate].
+    apply IH in H. destruct H as (u & -> & Hu). exists (c :: u). split; [reflexivity|]. intros t. cbn [app take_until_rbrace]. rewrite E, En. apply Hu.
 Qed.
 
 Lemma parse_cat_name_repl s nm rest : parse_cat_name s = Some (nm, rest) ->
@@ -41,7 +42,8 @@ Lemma parse_cat_name_repl s nm rest : parse_cat_name s = Some (nm, rest) ->
 Proof.
   destruct s as [|c s]; cbn [parse_cat_name]; [discriminate|]. intros H. destruct (N.eqb c ch_lbrace) eqn:E.
   - apply take_until_rbrace_repl in H. destruct H as (u & -> & Hu). exists (c :: u). split; [reflexivity|]. intros t. cbn [app parse_cat_name]. rewrite E. apply Hu.
-  - inversion H; subst. exists [c]. split; [reflexivity|]. intros t. cbn [app parse_cat_name]. rewrite E. reflexivity.
+  - destruct (in_range 97 122 c || in_range 65 90 c) eqn:El; [|discriminate].
+    inversion H; subst. exists [c]. split; [reflexivity|]. intros t. cbn [app parse_cat_name]. rewrite E, El. reflexivity.
 Qed.
 
 Lemma parse_escape_repl s it rest : parse_escape s = Some (it, rest) ->
@@ -85,8 +87,13 @@ Proof.
   destruct s as [|c s']; [discriminate|]. rewrite parse_class_S in H.
   destruct (N.eqb c ch_rbrack && negb first) eqn:E1.
   { inversion H; subst. exists [c]. split; [reflexivity|]. intros t. cbn [app]. rewrite parse_class_S, E1. reflexivity. }
+  destruct (setop_at c s') eqn:Eso; [discriminate|].
   destruct (class_item c s') as [[it r1]|] eqn:Ei; [|discriminate].
-  destruct (class_item_repl _ _ _ _ Ei) as (u1 & -> & Hu1).
+  destruct (class_item_repl _ _ _ _ Ei) as (u1 & Es' & Hu1).
+  (* the replaced input keeps the first character after c *)
+  assert (Hso : forall X t, X <> [] -> s' = X ++ rest -> setop_at c (X ++ t) = false).
+  { intros X t HX EX. rewrite <- Eso. apply setop_at_hd. rewrite EX. destruct X; [contradiction|reflexivity]. }
+  subst s'.
   (* recursion on r1 itself, whose first character is d (and is consumed) *)
   assert (Hrec : forall it' d r2, r1 = d :: r2 -> parse_class F r1 (it' :: acc) false = Some (items, rest) ->
             exists u2, r1 = (d :: u2) ++ rest /\ forall t, parse_class F ((d :: u2) ++ t) (it' :: acc) false = Some (items, t)).
@@ -97,8 +104,11 @@ Proof.
             (match it' with CChar _ => False | _ => True end) ->
             parse_class F r1 (it' :: acc) false = Some (items, rest) ->
             exists u, c :: u1 ++ r1 = u ++ rest /\ forall t, parse_class (S F) (u ++ t) acc first = Some (items, t)).
-  { intros it' Hi Hnc H'. destruct (IH _ _ _ _ _ H') as (u2 & -> & Hr). exists (c :: u1 ++ u2). split; [cbn [app]; rewrite app_assoc; reflexivity|].
-    intros t. cbn [app]. rewrite <- app_assoc, parse_class_S, E1, Hi. destruct it'; try contradiction; apply Hr. }
+  { intros it' Hi Hnc H'. destruct (parse_class_ext _ _ _ _ _ _ H') as [Hl _]. destruct (IH _ _ _ _ _ H') as (u2 & -> & Hr).
+    assert (Hu2 : u2 <> []) by (intros ->; cbn [app] in Hl; lia).
+    exists (c :: u1 ++ u2). split; [cbn [app]; rewrite app_assoc; reflexivity|].
+    intros t. cbn [app]. rewrite parse_class_S, E1, (Hso (u1 ++ u2) t); [|destruct u1; [exact Hu2|discriminate]|rewrite app_assoc; reflexivity].
+    rewrite <- app_assoc, Hi. destruct it'; try contradiction; apply Hr. }
   destruct it as [lo|lo0 hi0|ng nm|ng|ng|ng]; try (apply (Hgen _ Hu1 I H)).
   destruct r1 as [|d r2]; [discriminate|].
   destruct (N.eqb d ch_minus) eqn:Ed.
@@ -107,26 +117,35 @@ Proof.
       apply N.eqb_eq in Ed, Ee. subst d e.
       destruct F as [|F']; [discriminate|]. rewrite parse_class_S in H.
       change (N.eqb ch_minus ch_rbrack && negb false) with false in H. cbv iota in H.
+      change (setop_at ch_minus (ch_rbrack :: r3)) with false in H. cbv iota in H.
       change (class_item ch_minus (ch_rbrack :: r3)) with (Some (CChar ch_minus, ch_rbrack :: r3)) in H. cbv iota beta in H.
       change (N.eqb ch_rbrack ch_minus) with false in H. cbv iota in H.
       destruct F' as [|F'']; [discriminate|]. rewrite parse_class_S in H.
       change (N.eqb ch_rbrack ch_rbrack && negb false) with true in H. cbv iota in H. inversion H; subst.
       exists (c :: u1 ++ [ch_minus; ch_rbrack]). split; [cbn [app]; rewrite <- app_assoc; reflexivity|].
-      intros t. cbn [app]. rewrite <- app_assoc. cbn [app]. rewrite parse_class_S, E1, Hu1.
+      intros t. cbn [app]. rewrite parse_class_S, E1, (Hso (u1 ++ [ch_minus; ch_rbrack]) t);
+        [|destruct u1; discriminate|rewrite <- app_assoc; reflexivity].
+      rewrite <- app_assoc. cbn [app]. rewrite Hu1.
       change (N.eqb ch_minus ch_minus) with true. change (N.eqb ch_rbrack ch_rbrack) with true. cbv iota.
       rewrite parse_class_S. change (N.eqb ch_minus ch_rbrack && negb false) with false. cbv iota.
+      change (setop_at ch_minus (ch_rbrack :: t)) with false. cbv iota.
       change (class_item ch_minus (ch_rbrack :: t)) with (Some (CChar ch_minus, ch_rbrack :: t)). cbv iota beta.
       change (N.eqb ch_rbrack ch_minus) with false. cbv iota. rewrite parse_class_S. reflexivity.
-    + destruct (class_hi e r3) as [[ith r4]|] eqn:Eh; [|discriminate].
+    + destruct (N.eqb e ch_minus) eqn:Em; [discriminate|].
+      destruct (class_hi e r3) as [[ith r4]|] eqn:Eh; [|discriminate].
       destruct (class_hi_repl _ _ _ _ Eh) as (uh & -> & Huh).
       destruct ith as [hi|lo0 hi0|ng nm|ng|ng|ng]; try discriminate.
       destruct (N.leb lo hi) eqn:Ele; [|discriminate].
       destruct (IH _ _ _ _ _ H) as (u3 & -> & Hr).
       exists (c :: u1 ++ d :: e :: uh ++ u3). split; [cbn [app]; rewrite <- !app_assoc; cbn [app]; rewrite <- app_assoc; reflexivity|].
-      intros t. cbn [app]. rewrite <- !app_assoc. cbn [app]. rewrite <- app_assoc.
-      rewrite parse_class_S, E1, Hu1, Ed, Ee, Huh, Ele. apply Hr.
+      intros t. cbn [app]. rewrite parse_class_S, E1, (Hso (u1 ++ d :: e :: uh ++ u3) t);
+        [|destruct u1; discriminate|rewrite <- !app_assoc; cbn [app]; rewrite <- app_assoc; reflexivity].
+      rewrite <- !app_assoc. cbn [app]. rewrite <- app_assoc.
+      rewrite Hu1, Ed, Ee, Em, Huh, Ele. apply Hr.
   - destruct (Hrec _ d r2 eq_refl H) as (u2 & E & Hr). exists (c :: u1 ++ d :: u2). split; [cbn [app]; f_equal; rewrite <- app_assoc; f_equal; exact E|].
-    intros t. cbn [app]. rewrite <- app_assoc. cbn [app]. rewrite parse_class_S, E1, Hu1, Ed. apply Hr.
+    intros t. cbn [app]. rewrite parse_class_S, E1, (Hso (u1 ++ d :: u2) t);
+      [|destruct u1; discriminate|rewrite <- app_assoc; cbn [app]; f_equal; exact E].
+    rewrite <- app_assoc. cbn [app]. rewrite Hu1, Ed. apply Hr.
 Qed.
 
 (* ------------------------------------------------------------------ quantifiers *)
